@@ -30,7 +30,9 @@ func c16Model() c16Table {
 		// several names are used in both files, with the larger share sometimes in
 		// the root and sometimes in the included file: a total that is not the sum
 		// over the files changes the order
-		Accounts: map[string]int{"expenses:food": 4, "expenses:fuel": 2, "assets:cash": 4, "Assets:Bank account": 3, "расходы:еда": 1, "equity:opening": 1},
+		Accounts: map[string]int{"expenses:food": 4, "expenses:fuel": 2, "assets:cash": 4, "Assets:Bank account": 3, "расходы:еда": 1, "equity:opening": 1,
+			// a name with a blank in its first segment whose rest is the start of other names
+			"my assets:cash": 1},
 		// "Cafe" is partly written as "Cafe | note"; "Bar (West) End" has a bracket in its name
 		Payees:      map[string]int{"shop": 4, "shopping mall": 1, "Cafe": 3, "Åke": 2, "Bar (West) End": 1},
 		Commodities: map[string]int{"EUR": 3, "USD": 4, "$": 1},
@@ -70,6 +72,7 @@ func c16Journals() (root, inc string) {
 		"",
 		"2001-02-03 shopping mall",
 		"    equity:opening  1 USD",
+		"    my assets:cash",
 		"",
 		"2001-02-04 Åke",
 		"",
@@ -103,6 +106,9 @@ func c16Lines() []c16Line {
 		{Context: "account", Prefix: "    ("},
 		{Context: "account", Prefix: "    ["},
 		{Context: "account", Prefix: "account "},
+		// a posting with a status mark
+		{Context: "account", Prefix: "    * "},
+		{Context: "account", Prefix: "    ! "},
 		{Context: "payee", Prefix: "2001-03-01 "},
 		{Context: "payee", Prefix: "2001-03-01 * "},
 		{Context: "payee", Prefix: "2001-03-01 (12) "},
